@@ -93,10 +93,10 @@ def gen_series(r, tier='quick', **force):
     normal = np.cross(rowc, colc)
     acq_pat = force.get('acq', r.choice(['asc', 'desc', 'interleaved', 'irregular', 'equal', 'inconsistent', 'none', 'partial',
                                          'one_inconsistent']))
-    tr_pat = r.choice(['same', 'same', 'vary', 'none', 'jitter'])
+    tr_pat = r.choice(['same', 'same', 'vary', 'none', 'jitter', 'partial'])
     if ordering in ('guess_vol', 'guess_file', 'none') and tr_pat in ('vary', 'jitter'):
         tr_pat = 'same'
-    pe = r.choice(['ROW', 'COL', 'vary', 'none'])
+    pe = r.choice(['ROW', 'COL', 'vary', 'none', 'partial'])
     slice_t = {'asc': list(range(S)), 'desc': list(range(S - 1, -1, -1)),
                'interleaved': [(i // 2 if i % 2 == 0 else (S + 1) // 2 + i // 2) for i in range(S)],
                'irregular': [r.randint(0, 5) for _ in range(S)], 'equal': [0] * S,
@@ -148,11 +148,18 @@ def gen_series(r, tier='quick', **force):
                     meta['RepetitionTime'] = 2000.0
                 elif tr_pat == 'vary':
                     meta['RepetitionTime'] = 2000.0 + 100 * ((s + t + v) % 2)
+                elif tr_pat == 'partial':
+                    # the same repetition time in the files that state one; some files do not (never the first file)
+                    if (s + t + v) % 2 == 0:
+                        meta['RepetitionTime'] = 2000.0
                 elif tr_pat == 'jitter':
                     # not the same in all files, though only just (the last digits scanners write vary)
                     meta['RepetitionTime'] = 2000.0 + 0.003 * ((s + 2 * t + 3 * v) % 4)
                 if pe in ('ROW', 'COL'):
                     meta['InPlanePhaseEncodingDirection'] = pe
+                elif pe == 'partial':
+                    if (s + t + v) % 2 == 0:
+                        meta['InPlanePhaseEncodingDirection'] = 'ROW'
                 elif pe == 'vary':
                     meta['InPlanePhaseEncodingDirection'] = 'ROW' if (s + t + v) % 2 == 0 else 'COL'
                 ipp = [origin[i] + normal[i] * gap * s + (rowc[i] * shear[0] + colc[i] * shear[1]) * s for i in range(3)]
@@ -190,7 +197,12 @@ def gen_series(r, tier='quick', **force):
         # RescaleSlope / RescaleIntercept: the output holds the rescaled values; integral parameters that leave the range
         # of the stored pixel type (negative results of unsigned data, doubled values past 2**15 / 2**16) and fractional ones
         rescale = r.choice([(1, -1024), (2, 0), (2, -7), (1, 100000), (0.5, 0), (0.25, 10.5), (3, -2048), (1, -5)])
-    return {'rescale': rescale, 'op': 'stack', 'S': S, 'T': T, 'V': V, 'orient': oname, 'iop': list(map(float, rowc)) + list(map(float, colc)),
+    bits8 = False
+    if force.get('rescale') and rescale is None and not signed and not bits_mix and meta_mode == 'default' \
+            and not any('bright' in f for f in files) and len(files) * rows * cols <= 250 and r.random() < 0.35:
+        # 8-bit unsigned pixels (BitsAllocated 8) that use the upper half of the range: every pixel is still labelled
+        bits8, bits = True, 8
+    return {'bits_allocated': 8 if bits8 else 16, 'rescale': rescale, 'op': 'stack', 'S': S, 'T': T, 'V': V, 'orient': oname, 'iop': list(map(float, rowc)) + list(map(float, colc)),
             'rows': rows, 'cols': cols, 'spacing': spacing, 'gap': gap, 'origin': origin,
             'ordering': ordering, 'files': files, 'patterns': patterns, 'acq': acq_pat, 'tr': tr_pat, 'pe': pe, 'shear': shear, 'hdr': hdr,
             'bits_stored': bits, 'signed': signed, 'meta_mode': meta_mode, 'bits_mix': bits_mix}
@@ -198,6 +210,9 @@ def gen_series(r, tier='quick', **force):
 
 def pixels_of(series, f):
     rows, cols = series['rows'], series['cols']
+    if series.get('bits_allocated') == 8:
+        k = [g['id'] for g in series['files']].index(f['id'])
+        return (255 - (k * rows * cols + np.arange(rows * cols))).reshape(rows, cols)
     return (f['base'] + f.get('bright', 0) + np.arange(rows * cols)).reshape(rows, cols)
 
 
@@ -205,7 +220,7 @@ def dataset_of(series, f, **over):
     kw = dict(ipp=f['ipp'], iop=series['iop'], rows=series['rows'], cols=series['cols'],
               spacing=series['spacing'], pixels=pixels_of(series, f), meta=f['meta'],
               bits_stored=f.get('bits', series.get('bits_stored', 16)), signed=series.get('signed', False),
-              uid='1.2.3.%d' % f['id'])
+              uid='1.2.3.%d' % f['id'], bits_allocated=series.get('bits_allocated', 16))
     if series.get('rescale'):
         kw['slope'], kw['intercept'] = series['rescale']
     kw.update(over)
